@@ -23,6 +23,9 @@ pub mod verif_prelude {
     pub assume_specification<T: Clone>[ <[T]>::to_vec ](s: &[T]) -> (r: Vec<T>)
         ensures r@ == s@;
 
+    pub assume_specification<T, const N: usize>[ <[T; N]>::as_mut_slice ](a: &mut [T; N]) -> (r: &mut [T])
+        ensures r@ == old(a)@, final(r)@ == final(a)@;
+
     pub assume_specification<T>[ <[T]>::reverse ](s: &mut [T])
         ensures final(s)@ == old(s)@.reverse();
 
